@@ -270,6 +270,13 @@ func Parse(input interface{}) core.Value {
 
 			for i := 0; i < size; i++ {
 				field := t.Field(i)
+
+				// unexported fields cannot be read through reflection
+				// (Value.Interface panics) and are not part of the data
+				if field.PkgPath != "" {
+					continue
+				}
+
 				fieldValue := v.Field(i)
 
 				obj.Set(NewString(field.Name), Parse(fieldValue.Interface()))
